@@ -38,7 +38,7 @@ theorem std_blocks_sum :
   decide +kernel
 
 /-- the same for `1 ≤ v ≤ 40` -/
-theorem std_blocks_sum' (v : Nat) (h1 : 1 ≤ v) (h40 : v ≤ 40) (ec : EC) :
+theorem std_blocks_sum_version (v : Nat) (h1 : 1 ≤ v) (h40 : v ≤ 40) (ec : EC) :
     groupCodewords v ec = rawDataModules v / 8 := by
   have h := std_blocks_sum (v - 1) (List.mem_range.mpr (by omega)) ec (by cases ec <;> decide)
   have hv : v - 1 + 1 = v := by omega
